@@ -379,10 +379,12 @@ func checkCmap(cm font.Cmap, exhaustive bool, hint [][2]int64) (rp *report) {
 // the input's identity. A discrepancy that no listed finding matches fails the case.
 
 const (
-	// cmap format 4, segment using idRangeOffset whose glyphIdArray entry is 0: Lookup reports
-	// "no glyph" (as the specification says) but Iter yields (r, 0) and RuneRanges, hence the
-	// coverage, contain r.
-	kfCmap4Zero = "C11-cmap4-zero-entries-enumerated"
+	// Iter yields a rune with glyph 0 (and RuneRanges, hence the coverage, contain it) although
+	// Lookup reports "no glyph" for it. On the pinned tree this is the format 4 segment using
+	// idRangeOffset whose glyphIdArray entry is 0; if Lookup is changed to treat every glyph 0 as
+	// "not found" (proposed_fixes/c10-cmap-glyph0-found.patch) it is every format, including the
+	// U+FFFF sentinel of format 4.
+	kfGlyphZero = "C11-glyph0-entries-enumerated"
 	// legacy remappers on a (3,0) subtable (symbol, simplified/traditional Arabic font page):
 	// Lookup maps additional runes that Iter, hence the coverage, do not contain.
 	kfRemap = "C11-remapped-runes-not-enumerated"
@@ -476,13 +478,17 @@ func judge(rp *report, sh shape) (*disc, []string) {
 		ok := false
 		switch d.Class {
 		case dIterNotLookup, dRangesExtra, dCovExtra:
-			// format 4 zero entry: Iter itself reports the rune with glyph 0
-			ok = sh.format == 4 && inRange(d.Rune) && s.itZero.has(d.Rune) && use(kfCmap4Zero)
+			// Iter itself reports the rune with glyph 0
+			ok = inRange(d.Rune) && s.itZero.has(d.Rune) && use(kfGlyphZero)
+		case dIterDup:
+			// ... and a remapper that finds the rune unmapped by the wrapped cmap yields it again
+			ok = sh.remapped && inRange(d.Rune) && s.itZero.has(d.Rune) && use(kfGlyphZero)
 		case dLookupNotIter, dCovMissing, dRangesMissing:
 			// remapped rune: the wrapped cmap does not map the rune itself
 			ok = sh.remapped && use(kfRemap)
 		case dIterGlyph:
-			ok = sh.format == 4 && d.Glyph > 0xFFFF && int64(d.Glyph&0xFFFF) == d.Lookup && use(kfCmap4Wide)
+			ok = sh.format == 4 && d.Glyph > 0xFFFF && int64(d.Glyph&0xFFFF) == d.Lookup && use(kfCmap4Wide) ||
+				sh.remapped && d.Glyph == 0 && inRange(d.Rune) && s.itZero.has(d.Rune) && use(kfGlyphZero)
 		}
 		if !ok && sh.inverted && d.Class != dPanic {
 			ok = use(kfInverted)
